@@ -72,22 +72,40 @@ def check(env, rep, tier):
         I.call_hooks.append(hook)
         I, res = run(prog, enc, args=[arg], st=st, I=I)
         report_obligations(rep, "C13.1", I)
-        if len(captured) != 1:
+        if len(captured) < 1:
             rep.ob("C13.1", "encode|scalar", False, "cannot establish: the scalar handed to the uint option encoder was not recognised in %s" % enc["path"])
         else:
-            s, scalar, via = captured[0]
-            bits = bitprov.resolve_bits(I, s, scalar)
-            fn, fm, fz = bitprov.field_of(bits, s_num), bitprov.field_of(bits, s_more), bitprov.field_of(bits, s_szx)
+            # one capture per path (the more flag may be branched on instead of shifted in)
             site = {"file": enc["span"]["f"], "line": enc["span"]["l"], "fn": enc["path"]}
-            rep.ob("C13.1", "encode|szx", fz == {0: 0, 1: 1, 2: 2}, "encoder: SZX is not placed at bits 2:0 of the scalar (found %r)" % fz, site)
-            rep.ob("C13.1", "encode|more", fm == {3: 0}, "encoder: the more flag is not placed at bit 3 of the scalar (found %r)" % fm, site)
+            okz = okm = okn = okc = True
+            fn_seen, via = {}, None
             want = {4 + i: i for i in range(num_bits)}
-            rep.ob("C13.1", "encode|num", fn == want,
+            for s, scalar, via in captured:
+                bits = bitprov.resolve_bits(I, s, scalar)
+                fn, fm, fz = bitprov.field_of(bits, s_num), bitprov.field_of(bits, s_more), bitprov.field_of(bits, s_szx)
+                fn_seen = fn
+                if fz != {0: 0, 1: 1, 2: 2}:
+                    okz = False
+                mv = arg.fields[i_more]
+                mlo, mhi = s.range(mv.aff) if isinstance(mv, IntV) else (0, 1)
+                if mv.cond is not None and isinstance(mv, IntV):
+                    from absdom import holds
+                    mlo, mhi = (1, 1) if holds(s, mv.cond, True) else (0, 0) if holds(s, mv.cond, False) else (mlo, mhi)
+                more_bit_ok = fm == {3: 0} or (not fm and len(bits) > 3 and bits[3] in (0, 1) and mlo == mhi == bits[3])
+                if not more_bit_ok:
+                    okm = False
+                if fn != want:
+                    okn = False
+                other = [i for i, b in enumerate(bits) if b not in (0,) and i not in fn and i not in fm and i not in fz and not (i == 3 and more_bit_ok)]
+                if other:
+                    okc = False
+            rep.ob("C13.1", "encode|szx", okz, "encoder: SZX is not placed at bits 2:0 of the scalar", site)
+            rep.ob("C13.1", "encode|more", okm, "encoder: the more flag is not placed at bit 3 of the scalar", site)
+            rep.ob("C13.1", "encode|num", okn,
                    "encoder: NUM is not placed completely at bits 4 and up: %d of its %d bits reach the scalar (%s): block numbers >= %d lose their top bits" % (
-                       len(fn), num_bits, "positions ok" if all(want.get(k) == v for k, v in fn.items()) else "wrong positions", 1 << max(len(fn), 1)),
-                   site, sample={"rule": "C13.1", "scalar_bits": len(bits), "num_bits_encoded": len(fn), "via": via})
-            other = [i for i, b in enumerate(bits) if b not in (0,) and i not in fn and i not in fm and i not in fz]
-            rep.ob("C13.1", "encode|clean", not other, "encoder: scalar bits %r come from neither NUM, M nor SZX" % other, site)
+                       len(fn_seen), num_bits, "positions ok" if all(want.get(k) == v for k, v in fn_seen.items()) else "wrong positions", 1 << max(len(fn_seen), 1)),
+                   site, sample={"rule": "C13.1", "paths": len(captured), "num_bits_encoded": len(fn_seen), "via": via})
+            rep.ob("C13.1", "encode|clean", okc, "encoder: some scalar bits come from neither NUM, M nor SZX", site)
         # ---------------------------------------------------------- decode
         I = new_interp(prog)
         I.no_join_bodies.add(dec["id"])
